@@ -70,7 +70,7 @@ def resolve(spec: str):
             obj = obj.__func__
         if isinstance(obj, property):
             obj = obj.fget
-    return obj
+    return inspect.unwrap(obj) if callable(obj) else obj
 
 
 def run_shards(modname, specs, jobs, tmp):
@@ -186,6 +186,9 @@ def main(argv=None):
             except Exception as e:  # renamed/removed mechanism: cannot decide
                 mech_cov[spec] = {"error": repr(e)}
                 total.inconc(f"mechanism {spec} could not be located: {e!r}")
+
+    if hasattr(mod, "post_merge"):
+        mod.post_merge(total)
 
     # --- floors -----------------------------------------------------------
     distinct = len(total.digests)
